@@ -711,7 +711,7 @@ func RunC03(e *Env) (int, error) {
 	ev := e.Ev
 	pool := libsim.NewPool(e.Tree.Worker("inst"), e.Workers, workerAS)
 	defer pool.Close()
-	n := int64(e.Pick(1500, 40000))
+	n := e.N(1500, 40000)
 	faultsPerWorld := e.Pick(2, 7)
 
 	fn := func(run int64) harness.RunResult {
@@ -723,6 +723,11 @@ func RunC03(e *Env) (int, error) {
 		obs, err := judgeC03(e, pool, c, "run", run)
 		if err != nil {
 			return harness.RunResult{Err: err}
+		}
+		if obs.Outcome != nil {
+			e.Log(run, c, obs.Clause, obs.Loads, obs.Outcome.Status, obs.Outcome.Stdout, obs.Outcome.Stderr, obs.Outcome.Sig)
+		} else {
+			e.Log(run, c, obs.Clause, obs.Loads)
 		}
 		key := ""
 		if obs.Chain >= 2 && !obs.Ambiguous {
